@@ -90,6 +90,11 @@ class Linear(Transform):
             self.cache.invalidate()
         return super().train(mode)
 
+    def _load_from_state_dict(self, *args, **kwargs):
+        super()._load_from_state_dict(*args, **kwargs)
+        # The cached matrices were computed from the previous parameters.
+        self.cache.invalidate()
+
     def use_cache(self, mode=True):
         if not check.is_bool(mode):
             raise TypeError("Mode must be boolean.")
